@@ -606,6 +606,8 @@ Definition empty_half (ntor ngrp : nat) (heur : nat) : half :=
 (* ngrp x push_group, then ntor x insert(download, priority) (all into group 0) *)
 Definition init (ntor ngrp : nat) : st := mkSt (empty_half ntor ngrp 0) (empty_half ntor ngrp 3) [] 31536000000000%Z.
 
+(* The two halves always have the same dimensions, the same torrent -> group map and the same
+   liveness flags (the dump prints them for both); ONew / OClose / OSetGroup test both halves. *)
 Definition alive (h : half) (c : nat) : bool := cs_a (getcs h c).
 Definition on_half (d : dir) (rs : list N) (s : st) (f : env -> half -> res half) : res st :=
   do h <- f (env_of d s) (with_rs (get_half d s) rs); Ok (set_half d (with_rs h []) s).
@@ -617,7 +619,7 @@ Definition step (s : st) (o : op) (rs : list N) : res st :=
   let ng := length (h_qs (s_up s)) in
   match o with
   | ONew t =>
-    if Nat.ltb t nt then
+    if Nat.ltb t nt && Nat.ltb t (length (h_ents (s_dn s))) then
       let add h := mkH (h_cs h ++ [mkCS true false false false false 0%Z]) (h_ctor h ++ [t])
                        (h_ents h) (h_tn h) (h_tgrp h) (h_qs h) (h_cur h) (h_max h) (h_rs h) in
       Ok (mkSt (add (s_up s)) (add (s_dn s)) (s_ci s ++ [dci]) (s_now s))
@@ -631,7 +633,7 @@ Definition step (s : st) (o : op) (rs : list N) : res st :=
   | OSnub d c => if alive (get_half d s) c then on_half d rs s (fun v h => set_snubbed v c h) else Ok s
   | OUnsnub d c => if alive (get_half d s) c then on_half d rs s (fun v h => set_not_snubbed v c h) else Ok s
   | OClose c =>
-    if alive (s_up s) c then
+    if alive (s_up s) c && alive (s_dn s) c then
       do s1 <- on_half Up rs s (fun _ h => close_half c h);
       on_half Dn rs s1 (fun _ h => close_half c h)
     else Ok s
@@ -656,7 +658,8 @@ Definition step (s : st) (o : op) (rs : list N) : res st :=
     let s2 := set_half Dn (with_rs hd []) s1 in
     do _ <- tick_check (s_up s2); do _ <- tick_check (s_dn s2); Ok s2
   | OSetGroup t g =>
-    if Nat.ltb t nt && Nat.ltb g ng && negb (Nat.eqb (grp_of (s_up s) t) g) then
+    if Nat.ltb t nt && Nat.ltb g ng && negb (Nat.eqb (grp_of (s_up s) t) g) &&
+       (Nat.ltb t (length (h_ents (s_dn s))) && Nat.ltb g (length (h_qs (s_dn s))) && negb (Nat.eqb (grp_of (s_dn s) t) g)) then
       do s1 <- on_half Up rs s (fun _ h => move_half t g h);
       on_half Dn rs s1 (fun _ h => move_half t g h)
     else Ok s
